@@ -11,3 +11,30 @@ package transmit
 //@ lockdiscipline transmit.DirectTransmission batchMutex props C35 skip: Start, Stop
 //@ guarded_by transmit.eventBatch.mutex: events, startTime
 //@ lockdiscipline transmit.eventBatch mutex props C35
+
+// ---- C36 / C26: Stop flushes what is pending. After the dispatcher goroutine has been told to stop and has
+// finished, every batch that still holds events is handed to the sending pool exactly once, the table is
+// emptied, and Stop waits for the pool.
+//@ ghost goN(ref) int
+//@ ghost waitN(ref) int
+//@ ghost closedN(ref) int
+//@ assume github.com/sourcegraph/conc/pool.(*Pool).Go
+//@   ghostupdate goN(p) :: goN(p) == old(goN(p)) + 1
+//@ assume github.com/sourcegraph/conc/pool.(*Pool).Wait
+//@   ghostupdate waitN(p) :: waitN(p) == old(waitN(p)) + 1
+//@ fragment transmit.(*DirectTransmission).Stop loop 1 body props C36,C26
+//@   requires d != nil && d.dispatchPool != nil && batch != nil
+//@   let p = d.dispatchPool
+//@   ensures[pending-batch-is-sent-once] goN(p) == old(goN(p)) + ite(len(batch.events) > 0, 1, 0)
+//@   modifies all(goN)
+//@ contract transmit.(*DirectTransmission).Stop props C36,C26
+//@   assert only close-of-closed-channel
+//@   requires d != nil && d.dispatchPool != nil
+//@   requires[not-stopped-yet] d.stop != nil ==> closedN(d.stop) == 0
+//@   let p = d.dispatchPool
+//@   let stopCh = d.stop
+//@   ensures[dispatcher-told-to-stop] stopCh != nil ==> closedN(stopCh) == 1
+//@   ensures[table-emptied-and-pool-awaited] d.eventBatches == nil && waitN(p) == old(waitN(p)) + 1
+//@   ensures[no-error] result == nil
+//@   loop 1 invariant d != nil && toInt(d.dispatchPool) == toInt(p) && waitN(p) == old(waitN(p)) && d.eventBatches == nil && (stopCh != nil ==> closedN(stopCh) == 1)
+//@   modifies d.eventBatches, d.dispatchPool, d.stop, all(goN), all(waitN), all(closedN)
